@@ -301,6 +301,14 @@ func run(pl Plan) (res vfx.Result) {
 			at = now // the act is due already (the harness was busy observing): it is sent now
 		}
 		arr := at + lat
+		if suspected && arr == deadline {
+			// acts and timeouts are whole milliseconds apart, so an act may be planned for the very instant at which
+			// the timer of a LATER suspicion (which began when an earlier act arrived) expires; the order of two
+			// events at one virtual instant is not defined, so the act is sent a little later
+			at += 50 * time.Microsecond
+			arr = at + lat
+			labels["tie-with-deadline-avoided"] = true
+		}
 		if suspected && arr >= deadline {
 			die(deadline, "timer")
 		}
